@@ -460,6 +460,36 @@ class Buf:
         return "<buffer %s>" % self.role
 
 
+class Mask:
+    """boolean array  L <op> R  with both sides in the monomial fragment"""
+
+    def __init__(self, op, left, right, node=None):
+        self.op, self.left, self.right, self.node = op, left, right, node
+
+    @property
+    def key(self):
+        return (self.op, self.left.key, self.right.key)
+
+    def dead(self):
+        """never true: max(.., c) < c   /   min(.., c) > c   /  c > max(.., c)  / c < min(.., c)"""
+        def bounded(p, fn, c):
+            if not p.is_monomial():
+                return False
+            (m, k), = p.terms.items()
+            if k != 1 or len(m) != 1:
+                return False
+            a, ek = m[0]
+            return a[0] == "f" and a[1] == fn and from_key(ek).as_const() == 1 and c.key in a[2]
+        if self.op == "<":
+            return bounded(self.left, "max", self.right) or bounded(self.right, "min", self.left)
+        if self.op == ">":
+            return bounded(self.left, "min", self.right) or bounded(self.right, "max", self.left)
+        return False
+
+    def __repr__(self):
+        return "%s %s %s" % (show(self.left), self.op, show(self.right))
+
+
 class ArrayIn:
     """an input array whose rows are atoms ROLE[k]"""
 
@@ -503,7 +533,8 @@ def sub_key(sl):
 
 
 class Store:
-    def __init__(self, base, key, op, value, node, depth, target=None):
+    def __init__(self, base, key, op, value, node, depth, target=None, masks=None):
+        self.masks = masks or []  # Mask values (or Unknown) found among the subscript elements
         self.target = target  # env value of the root name at the time of the store (Buf | ...)
         self.base = base  # root local name
         self.key = key  # sub_key
@@ -613,6 +644,8 @@ class Evaluator:
                 if k == ():
                     return base
                 return Unknown("row %s of %s" % (pf.src(node.slice), base.role))
+            if isinstance(base, Mask):
+                return base  # a row / slice of a mask is governed by the same condition
             if isinstance(base, tuple):
                 k = sub_key(node.slice)
                 if len(k) == 1 and isinstance(k[0], int) and -len(base) <= k[0] < len(base):
@@ -626,6 +659,12 @@ class Evaluator:
         if isinstance(node, ast.Call):
             return self._call(node)
         if isinstance(node, ast.Compare):
+            ops = {ast.Lt: "<", ast.Gt: ">", ast.LtE: "<=", ast.GtE: ">="}
+            if len(node.ops) == 1 and type(node.ops[0]) in ops:
+                try:
+                    return Mask(ops[type(node.ops[0])], self.poly(node.left), self.poly(node.comparators[0]), node)
+                except NotComparable:
+                    pass
             return Unknown("comparison")
         if isinstance(node, ast.IfExp):
             d = self.decide(node.test)
@@ -740,9 +779,27 @@ class Evaluator:
                     return
                 self.env[base] = Unknown("partial store %s" % pf.src(node)[:60])
                 return
-            self.stores.append(Store(base, key, "=", value, node, self.depth, self.env.get(base)))
+            self.stores.append(Store(base, key, "=", value, node, self.depth, self.env.get(base),
+                                     self._masks_of(target)))
         else:
             pass
+
+    def _masks_of(self, target):
+        """boolean-mask elements of a store's subscript: every element that is not an
+        integer constant, a slice, None/Ellipsis or a plain loop index"""
+        out = []
+        if not isinstance(target, ast.Subscript):
+            return out
+        sl = target.slice
+        for e in (sl.elts if isinstance(sl, ast.Tuple) else [sl]):
+            if isinstance(e, (ast.Slice, ast.Constant)):
+                continue
+            v = self._safe(lambda e=e: self.ev(e))
+            if isinstance(v, Mask):
+                out.append(v)
+            elif isinstance(e, ast.Compare) or (isinstance(v, Unknown) and "comparison" in v.why):
+                out.append(v)
+        return out
 
     def _safe(self, fn):
         try:
@@ -782,7 +839,8 @@ class Evaluator:
                 if isinstance(self.env.get(base), Poly):
                     self.env[base] = Unknown("partial augmented store %s" % pf.src(st)[:60])
                     return
-                self.stores.append(Store(base, key, op or "?=", v, st, self.depth, self.env.get(base)))
+                self.stores.append(Store(base, key, op or "?=", v, st, self.depth, self.env.get(base),
+                                         self._masks_of(st.target)))
             return
         if isinstance(st, ast.Return):
             v = self._safe(lambda: self.ev(st.value)) if st.value is not None else PyConst(None)
